@@ -17,6 +17,7 @@ mod engine_b;
 mod engine_c;
 mod engine_d;
 mod sched;
+mod sysseam;
 mod inflate;
 mod mpart;
 mod simdata;
@@ -187,6 +188,8 @@ fn cmd_check(args: &[String]) -> i32 {
             "components_real": checks::components_real(check.prop),
             "components_stubbed": checks::components_stub(check.prop),
             "known_findings_reproduced": known_hits,
+            "determinism_selftest_last_result": std::fs::read_to_string(format!("{}/selftest/determinism.json", verif_dir())).ok().and_then(|s| serde_json::from_str::<Value>(&s).ok()).unwrap_or(Value::Null),
+            "sensitivity_selftest_last_result": std::fs::read_to_string(format!("{}/mutants/RESULTS.txt", verif_dir())).ok().map(|s| { let n = s.lines().count(); let bad = s.lines().filter(|l| l.contains("UNEXPECTED")).count(); json!({"catalogue_lines": n, "unexpected": bad, "lines_for_this_property": s.lines().filter(|l| l.contains(&format!(" {} exit=", check.prop))).collect::<Vec<_>>()}) }).unwrap_or(Value::Null),
             "exhaustive": false,
         },
         "assumptions": assumptions,
